@@ -48,7 +48,8 @@ RULE = ('SimpleClient on the real Client on the harness engine, its two '
         "consumer's emptiness test and its wait, or between its wake-up and "
         'its clear().'
         " Histories also end by the application's own disconnect() (connected, or during a reconnection: no further attempt may follow), and every history that has ended for good is probed with a fresh receive() and emit()."
-        ' Application disconnects are also placed right behind the loss, before the reconnection effort has run; the stimulus reconnect_then_lose queues the failing read loop between the CONNECT reply handler of a reconnection attempt and the task waiting in connect().')
+        ' Application disconnects are also placed right behind the loss, before the reconnection effort has run; the stimulus reconnect_then_lose queues the failing read loop between the CONNECT reply handler of a reconnection attempt and the task waiting in connect().'
+        ' Application disconnects during a reconnection can be followed by the server accepting the attempt that was in flight: the connection must not stay up.')
 ASSUMPTIONS = [
     'one consumer (the class is documented for a single application thread)',
     'call() time-outs are not judged',
